@@ -36,7 +36,7 @@ def gen_names(rng, per_byte=True, extra=20):
 class Tree:
     """a generated array: conf, disks, the files written so far"""
 
-    def __init__(self, root, ndisks, pool=True, share=None, nparity=1):
+    def __init__(self, root, ndisks, pool=True, share=None, nparity=1, hashsize=None):
         self.root = root
         self.disks = [('d%d' % (i + 1), os.path.join(root, 'disk%d' % (i + 1))) for i in range(ndisks)]
         for _, d in self.disks:
@@ -47,12 +47,15 @@ class Tree:
         self.conf = os.path.join(root, 'snapraid.conf')
         self.has_pool = pool
         self.nparity = nparity
+        self.hashsize = hashsize
         self.write_conf(share)
 
     def write_conf(self, share=None):
         """(re)write the configuration, e.g. with another share prefix between two pool runs"""
         with open(self.conf, 'w') as f:
             f.write('blocksize 1\nparity %s/par/p.par\ncontent %s/content\n' % (self.root, self.root))
+            if self.hashsize:
+                f.write('hashsize %d\n' % self.hashsize)
             for k in range(2, self.nparity + 1):
                 f.write('%d-parity %s/par/p%d.par\n' % (k, self.root, k))
             for n, d in self.disks:
